@@ -79,6 +79,8 @@ type Lowerer struct {
 	assumed          map[string]bool
 	afterCall        []func()
 	acqPoints        []acqPoint
+	lastResults      []*Term        // results of the call whose call-site effects are being applied
+	lastResultTypes  []types.Type
 	pendingRangeKey  string         // source text of the expression ranged over by the loop being opened
 	nilMapFact       map[string]int // block:var -> statement count when the nil-map fact was last stated
 	itPoints         []acqPoint
